@@ -402,8 +402,10 @@ Definition split_tx_queue_into_segments (s : vsock) : step unit :=
       else s in
     if is_remote_fin_or_later (v_state s1) then SOk s1 tt
     else
+      (* (repair of D6) once our FIN has been numbered the probe is no longer given up and re-cut *)
       let '(segs1, pe) := pop_expired_mtu_probe (v_segs s1)
-                            (timer_expired (v_t_retransmit s1) (v_now s1))
+                            (timer_expired (v_t_retransmit s1) (v_now s1)
+                             && negb (is_local_fin_or_later (v_state s1)))
                             (o_mtu_probe_max_retx (v_opts s1)) in
       let cont (s2 : vsock) : step unit :=
         let segmented_len := ss_len_bytes (v_segs s2) in
@@ -730,9 +732,12 @@ Definition next_timer_to_poll (s : vsock) : vsock * option Z :=
           (opt_min (v_t_inactivity s)
              (opt_min (v_t_recovery_pipe s) (v_t_syn_ack_resend s))))).
 
+(* (repair of D6, second part) an unacknowledged MTU probe counts as unsent data: our FIN is not numbered behind it *)
 Definition unsent_data_exists (s : vsock) : bool :=
   (0 <? v_unsegmented s) ||
-  existsb (fun f => seg_send_count (fs_seg f) =? 0) (iter_for_sending (v_segs s) None).
+  existsb (fun f => (seg_send_count (fs_seg f) =? 0) ||
+                    (sg_probe (fs_seg f) && negb (sg_delivered (fs_seg f))))
+          (iter_for_sending (v_segs s) None).
 
 (* ------------------------------------------------------------------ poll *)
 Inductive body_res :=
